@@ -138,6 +138,22 @@ def extra_configs(prop, tier, seed):
                               min_depth=2, max_depth=6, n_agents=20, n_terminals=2,
                               n_iter=2, box='wide', lb=[0.0] * nv, ub=[10.0] * nv, objective='sphere',
                               hyper={'p_reproduction': 0.0, 'p_mutation': 0.0 if j % 2 else 0.3, 'p_crossover': 0.0, 'prunning_ratio': 0.0}))
+    if prop in ('C12', 'C10'):
+        # protected division on a box far below EPSILON (every terminal coordinate is a denominator smaller than 1e-10), terminals
+        # used directly as operands: evaluating one tree must leave every other tree's value alone
+        for j, c in enumerate([c for c in runlevel.gen_configs('thorough', seed + 84) if c['kind'] == 'GP'][:4 if tier == 'quick' else 16]):
+            nv = c['n_vars']
+            extra.append(dict(c, hook='observer', functions=[['DIV'], ['DIV', 'SUM'], ['DIV', 'MUL', 'SUB']][j % 3], min_depth=1, max_depth=2 + j % 2,
+                              n_agents=[6, 10][j % 2], n_terminals=2, n_iter=3, box='tinybox', lb=[0.0] * nv, ub=[5e-11] * nv, objective='sphere', adv=0.0,
+                              store_best_only=False,
+                              hyper={'p_reproduction': 0.2, 'p_mutation': 0.2, 'p_crossover': 0.2, 'prunning_ratio': 0.0} if j % 2 else
+                              {'p_reproduction': 0.0, 'p_mutation': 0.0, 'p_crossover': 0.0, 'prunning_ratio': 0.0}))
+    if prop == 'C15':
+        # IHS bandwidth intervals far below EPSILON (also degenerate ones): the schedule stays inside them
+        pool_f = [c for c in runlevel.gen_configs('thorough', seed + 321) if c['kind'] == 'IHS']
+        for j, c in enumerate(pool_f[:3 if tier == 'quick' else 9]):
+            bw = [dict(bw_min=1e-13, bw_max=1e-11), dict(bw_min=2e-12, bw_max=2e-12), dict(bw_min=0.0, bw_max=5e-11)][j % 3]
+            extra.append(dict(c, hook='observer', adv=0.0, n_iter=5, n_agents=max(c['n_agents'], 3), hyper=bw))
     if prop in ('C12', 'C02'):
         # an objective that is NaN on part of the box: individuals whose fitness is NaN are never the best, and the best tree is
         # the tree of the agent that became best; without selection operators such runs complete (cf. K4)
@@ -200,6 +216,14 @@ def extra_configs(prop, tier, seed):
                          n_agents=max(c['n_agents'], 5), objective='sphere', hyper={}, store_best_only=False)
                 c['lb'], c['ub'] = runlevel.make_box(rng, box, nv)
                 extra.append(c)
+    if prop == 'C01':
+        # bounds declared as NumPy arrays of a narrow integer type whose width is not representable in that type
+        pool_n = [c for c in runlevel.gen_configs('thorough', seed + 311) if c['space'] == 'search']
+        for j_, kind in enumerate(['HC', 'PSO', 'ABC', 'CS', 'SA', 'FA']):
+            for c in [c for c in pool_n if c['kind'] == kind][:1 if tier == 'quick' else 3]:
+                dt, w_ = [('int8', 100), ('int16', 30000), ('int32', 2000000000)][j_ % 3]
+                extra.append(dict(c, hook='observer', adv=0.0, n_iter=max(c['n_iter'], 3), box='wide', lb=[-w_] * c['n_vars'], ub=[w_] * c['n_vars'],
+                                  objective='sphere', hyper={}, bounds_dtype=dt))
     if prop == 'C01':
         # the recorded task resumes on a space whose earlier task was interrupted by its hook in the middle of an iteration
         rng = _random.Random(seed * 73 + 51)
@@ -356,6 +380,39 @@ def extra_configs(prop, tier, seed):
             lo, hi = [(0.1, 0.5), (0.8, 0.95), (0.2, 0.6), (0.75, 0.9)][j % 4]
             extra.append(dict(c, hook='observer', adv=0.0, n_iter=4, n_agents=1 if j % 2 == 0 else max(2, c['n_agents']),
                               objective='sphere' if j % 2 == 0 else 'constant', hyper={'w': 0.7, 'w_min': lo, 'w_max': hi, 'c1': 1.7, 'c2': 1.7}))
+    if prop == 'C03':
+        # a hook that enlarges the population by one individual: every sweep evaluates the population as it is then
+        pool_a = [c for c in runlevel.gen_configs('thorough', seed + 271) if c['space'] == 'search']
+        for kind in ('HC', 'SA', 'SCA', 'FA', 'FPA', 'CS'):
+            for c in [c for c in pool_a if c['kind'] == kind][:1 if tier == 'quick' else 4]:
+                extra.append(dict(c, hook='append', adv=0.0, n_iter=4, n_agents=max(c['n_agents'], 3), objective='sphere', box='wide',
+                                  lb=[-10.0] * c['n_vars'], ub=[10.0] * c['n_vars'], hyper={}, store_best_only=False))
+    if prop in ('C02', 'C07', 'C20', 'C04'):
+        # a hook that replaces the best agent by an equal new object through the public setter
+        pool_b = runlevel.gen_configs('thorough', seed + 281)
+        for kind in [k for k in runlevel.KINDS]:
+            for c in [c for c in pool_b if c['kind'] == kind and c['objective'] not in ('view0', 'view00', 'fmax')][:1 if tier == 'quick' else 3]:
+                extra.append(dict(c, hook='rebest', adv=0.0, n_iter=max(c['n_iter'], 8 if kind == 'BHA' else 4), n_agents=max(c['n_agents'], 6 if kind == 'BHA' else 3),
+                                  objective='positive' if kind == 'WCA' else 'sphere'))
+    if prop in ('C01', 'C13', 'C20', 'C06'):
+        # the bounds of a built space re-declared through its setters (same values) before the task: hypercomplex spaces with real
+        # bounds far from the unit box, kinds that clip their trial solutions through the agents' own bounds
+        pool_c = [c for c in runlevel.gen_configs('thorough', seed + 291) if c['space'] == 'hyper']
+        for kind in ('ABC', 'BA', 'CS', 'FPA', 'HS', 'IHS', 'SA', 'BHA'):
+            for c in [c for c in pool_c if c['kind'] == kind][:1 if tier == 'quick' else 4]:
+                nv = max(c['n_vars'], 2)
+                extra.append(dict(c, hook='observer', adv=0.0 if prop == 'C20' else 0.3, n_iter=10, n_agents=max(c['n_agents'], 6), n_vars=nv, box='wide',
+                                  lb=[-10.0] * nv, ub=[10.0] * nv, objective='outside', hyper={}, store_best_only=False, reassign_bounds=True))
+        pool_d = [c for c in runlevel.gen_configs('thorough', seed + 292) if c['space'] == 'search']
+        for kind in ('ABC', 'CS', 'HS', 'SA', 'PSO', 'HC'):
+            for c in [c for c in pool_d if c['kind'] == kind][:1 if tier == 'quick' else 3]:
+                extra.append(dict(c, hook='observer', adv=0.3, n_iter=max(c['n_iter'], 4), reassign_bounds=True))
+    if prop == 'C04':
+        # the store_best_only flag given as a NumPy boolean / as an int: truthiness is what counts
+        pool_e = runlevel.gen_configs('thorough', seed + 301)
+        for j_, kind in enumerate(['HC', 'PSO', 'ABC', 'GP', 'SA', 'AIWPSO']):
+            for c in [c for c in pool_e if c['kind'] == kind][:1 if tier == 'quick' else 3]:
+                extra.append(dict(c, hook='observer', adv=0.0, store_best_only=(j_ % 3 != 2), sbo_type=['np', 'int'][j_ % 2]))
     if prop == 'C03':
         # a hook that relocates an agent beyond the box: the sweep evaluates exactly what the hook left behind
         rng0 = _random.Random(seed * 59 + 37)
